@@ -231,6 +231,10 @@ func main() {
 	if s.Parallel && os.Getenv("VERIF_CHILD") != "1" {
 		parallelRerun(s, ctx, resps, seqImpl, res, perRegion)
 	}
+	if len(isolatedFailures.details) > 0 {
+		ctx.Notes["isolated_child_failures"] = isolatedFailures.details
+		ctx.Notes["isolated_child_recovered_on_retry"] = isolatedFailures.recovered
+	}
 	res.PerRegion = perRegion
 	res.Cases = len(ctx.reqs)
 	res.Distinct = len(seen)
@@ -433,29 +437,64 @@ func runImpl(s *Suite, req map[string]any) (out any) {
 
 var selfProp string
 
-// runIsolated runs one case in a child process (cases that may exhaust memory or crash the process).
+// runIsolated runs one case in a child process (cases that may exhaust memory or crash the process). A child that
+// cannot be run to completion is tried a second time: a decoder that really blows up on the input does so every time,
+// whereas a child lost to the machine (no process slot, a stall under load) comes back. What went wrong is kept for the
+// evidence (`isolated_child_failures`).
+var isolatedFailures struct {
+	sync.Mutex
+	recovered int
+	details   []string
+}
+
 func runIsolated(req map[string]any) any {
+	for attempt := 0; attempt < 2; attempt++ {
+		r, why := runIsolatedOnce(req)
+		if why == "" {
+			if attempt > 0 {
+				isolatedFailures.Lock()
+				isolatedFailures.recovered++
+				isolatedFailures.Unlock()
+			}
+			return r
+		}
+		isolatedFailures.Lock()
+		if len(isolatedFailures.details) < 10 {
+			isolatedFailures.details = append(isolatedFailures.details, fmt.Sprintf("attempt %d: %s", attempt+1, why))
+		}
+		isolatedFailures.Unlock()
+		time.Sleep(time.Second)
+	}
+	return "crash"
+}
+
+func runIsolatedOnce(req map[string]any) (any, string) {
 	exe, err := os.Executable()
 	if err != nil {
-		return "crash"
+		return nil, "os.Executable: " + err.Error()
 	}
 	b, _ := json.Marshal(req)
-	ctx, cancel := context.WithTimeout(context.Background(), 60*time.Second)
+	ctx, cancel := context.WithTimeout(context.Background(), 120*time.Second)
 	defer cancel()
+	start := time.Now()
 	cmd := exec.CommandContext(ctx, exe, "-prop", selfProp)
 	cmd.Env = append(os.Environ(), "VERIF_CHILD=1", "GOMEMLIMIT=2GiB")
 	cmd.Stdin = bytesReader(b)
 	outb, err := cmd.Output()
 	if err != nil {
-		return "crash"
+		tail := ""
+		if ee, isExit := err.(*exec.ExitError); isExit {
+			tail = trunc(string(ee.Stderr), 300)
+		}
+		return nil, fmt.Sprintf("%v after %.1fs %s", err, time.Since(start).Seconds(), tail)
 	}
 	var m map[string]any
 	d := json.NewDecoder(bytesReader(outb))
 	d.UseNumber()
 	if d.Decode(&m) != nil {
-		return "crash"
+		return nil, "child output is not JSON: " + trunc(string(outb), 200)
 	}
-	return m["r"]
+	return m["r"], ""
 }
 
 func runImplO(s *Suite, req map[string]any, orc map[string]any) (out any) {
